@@ -1,5 +1,6 @@
 import RactorModel.Lemmas.TimersProps
 import RactorModel.Lemmas.TimersDrop
+import RactorModel.Lemmas.TimersDeliver
 
 /-!
 # C12 — timers fire once, never early, and die with their target
@@ -39,11 +40,32 @@ the target stopped accepting (the instant its message loop ended — also while 
 running), a `send_after` handle is `Ok` only for a send made no later than that instant and `Err` only
 after it, exit reasons have a source, handled messages were sent. -/
 theorem ok_all (ops : List Op) : ok (steps init ops) = true :=
-  (Inv.init.steps ops).ok
+  ok_of_inv (Inv.init.steps ops) (DInv.init.steps Inv.init ops)
 
 /-- At every quiescent point of a quiescent run both predicates hold. -/
-theorem ok_quiescent (ms : List MOp) : ok (mrun init ms) = true ∧ okPrompt (mrun init ms) = true :=
-  ⟨(BInv.init.mrun ms).inv.ok, (BInv.init.mrun ms).okPrompt⟩
+theorem ok_quiescent (ms : List MOp) : ok (mrun init ms) = true ∧ okPrompt (mrun init ms) = true := by
+  refine ⟨?_, (BInv.init.mrun ms).okPrompt⟩
+  obtain ⟨ops, e⟩ := mrun_eq_steps init ms
+  rw [e]; exact ok_all ops
+
+/-- DELIVERY-level at-most-once, for every schedule: no message (timer id, k) is in the mailbox or in
+the handled log twice — a `send_after` message is handled at most once, the k-th interval message at
+most once —, every handled message was made by the k-th attempt of that (sending) timer and handled
+no earlier than that attempt, and an actor that is gone has an empty mailbox (what it had accepted
+and not handled is dropped, never handled later). -/
+theorem delivered_at_most_once (ops : List Op) :
+    let s := steps init ops
+    (s.target.mbox ++ s.target.handled.map (fun h => (h.1, h.2.1))).Nodup ∧
+    (∀ h ∈ s.target.handled, ∃ τ, s.timers[h.1]? = some τ ∧ τ.kind.sends = true ∧ 1 ≤ h.2.1 ∧
+        ∃ t, τ.sentAt[h.2.1 - 1]? = some t ∧ t ≤ h.2.2) ∧
+    (s.target.exit ≠ none → s.target.mbox = []) :=
+  delivered' (Inv.init.steps ops) (DInv.init.steps Inv.init ops)
+
+/-- a one-shot's message is handled at most once -/
+theorem oneShot_handled_once (ops : List Op) (i : Nat) (τ : Timer) (hi : (steps init ops).timers[i]? = some τ)
+    (hk : τ.kind.oneShot = true) :
+    ((steps init ops).target.handled.filter (fun h => h.1 == i)).length ≤ 1 :=
+  oneShot_handled_once' (Inv.init.steps ops) (DInv.init.steps Inv.init ops) i τ hi hk
 
 /-- `send_after` (also `exit_after`, `kill_after`): at most one action, and not before the period
 has elapsed since the API call — for every schedule. -/
@@ -308,3 +330,5 @@ end C12
 #print axioms C12.drop_handle_frame
 #print axioms C12.drop_handle_frame_macro
 #print axioms C12.mistyped_fails_once
+#print axioms C12.delivered_at_most_once
+#print axioms C12.oneShot_handled_once
